@@ -13,6 +13,20 @@ pub struct Data {
 }
 
 impl Data {
+    /// the same table with a zero-row batch first / in the middle / last, as the only batch, and with no
+    /// batch at all (name, data)
+    pub fn with_empties(&self) -> Vec<(&'static str, Data)> {
+        let e = self.batches[0].slice(0, 0);
+        let b = &self.batches;
+        let mk = |batches: Vec<RecordBatch>| Data { schema: self.schema.clone(), batches };
+        let mut first = vec![e.clone()];
+        first.extend(b.iter().cloned());
+        let mut middle = vec![b[0].clone(), e.clone()];
+        middle.extend(b[1..].iter().cloned());
+        let mut last = b.clone();
+        last.push(e.clone());
+        vec![("empty-first", mk(first)), ("empty-middle", mk(middle)), ("empty-last", mk(last)), ("empty-only", mk(vec![e])), ("no-write", mk(vec![]))]
+    }
     pub fn rows(&self) -> Vec<Vec<String>> {
         self.batches.iter().map(tok::batch_rows).collect()
     }
